@@ -7,9 +7,9 @@ Require Import TT.Model.Str TT.Model.C11Validator TT.Spec.C11Spec TT.Proofs.C11P
 Import ListNotations.
 
 (* The full statement (NOT asserted here): for every f64 printing function, every in-domain field whose literal
-   texts carry the declared values and that lies outside the nine known classes is parsed without panic and
+   texts carry the declared values and that lies outside the seven known classes is parsed without panic and
    its chain reads back as exactly the declared constraints. Checked at run time on every generated case
-   outside the classes; proved below for the rendering half, for fields without validators, and refuted
+   outside the classes (seven remain: C11-5 and C11-7 were repaired); proved below for the rendering half, for fields without validators, and refuted
    inside each class. *)
 Definition C11_exact_full_statement : Prop :=
   forall (dispf : str -> option str) (f : field),
@@ -59,22 +59,31 @@ Theorem C11_kf3_email_url_substring_refuted : kf_email_url_substring w3 = true /
 Proof. exact kf3_refuted. Qed.
 Theorem C11_kf4_keyword_in_text_refuted : kf_keyword_in_text w4 = true /\ fails w4.
 Proof. exact kf4_refuted. Qed.
-Theorem C11_kf5_multibyte_message_refuted :
-  kf_multibyte_message w5 = true /\ fails w5 /\ field_chain dispf_small w5 = Panic /\
-  kf_multibyte_message w5b = true /\ fails w5b.
-Proof. exact kf5_refuted. Qed.
+(* C11-5 repaired (char_indices): the old witnesses - a message that panicked, one that was cut - are in the
+   domain, in no class, and their chains now satisfy the oracle *)
+Theorem C11_fixed5_multibyte_message_ok : holds_b w5 = true /\ holds_b w5b = true.
+Proof. exact fixed5_ok. Qed.
 Theorem C11_kf6_escape_chain_refuted : kf_escape_chain w6 = true /\ fails w6.
 Proof. exact kf6_refuted. Qed.
-Theorem C11_kf7_option_below_vec_refuted : kf_option_below_vec w7 = true /\ fails w7.
-Proof. exact kf7_refuted. Qed.
+(* C11-7 repaired (Optional arm passes skip_validation through): the old witness now passes, and for every
+   ValidatorAttributes value the element schema of Vec<Option<String>> stays bare *)
+Theorem C11_fixed7_option_below_vec_ok : holds_b w7 = true /\
+  field_chain dispf_small w7 = Ok (Some {| v_length := Some {| c_min := Some (L "2"); c_max := None; c_msg := None |};
+                                          v_range := None; v_email := false; v_url := false |},
+                                   L "z.array(z.string().optional()).min(2)").
+Proof. exact fixed7_ok. Qed.
+Theorem C11_fixed7_render_option_element : forall v k, va_ok v = true ->
+  read_chain (build_schema (opts k (TsArr (TsOpt (TsPrim (L "string"))))) (Some v)) =
+    Some (Sch (L "z.array") [Sch (L "z.string") [] [MOptional]] (length_meths v ++ repeat MOptional k)).
+Proof. exact render_exact_option_element. Qed.
 Theorem C11_kf8_flag_message_refuted : kf_flag_message w8 = true /\ fails w8.
 Proof. exact kf8_refuted. Qed.
 Theorem C11_kf9_f64_inexact_refuted : kf_f64_inexact dispf_small w9 = true /\ fails w9.
 Proof. exact kf9_refuted. Qed.
-(* each witness triggers its own class only *)
+(* each remaining witness triggers its own class only; the repaired witnesses trigger none *)
 Theorem C11_classes_separate :
-  map (kf_flags dispf_small) [w1; w2; w3; w4; w5; w6; w7; w8; w9] =
-  map (fun i => map (Nat.eqb i) (seq 0 9)) (seq 0 9).
+  map (kf_flags dispf_small) [w1; w2; w3; w4; w6; w8; w9] = map (fun i => map (Nat.eqb i) (seq 0 7)) (seq 0 7)
+  /\ map (kf_any dispf_small) [w5; w5b; w7] = [false; false; false].
 Proof. exact witnesses_separate. Qed.
 
 (* non-vacuity *)
@@ -109,9 +118,10 @@ Print Assumptions C11_kf1_neg_bound_refuted.
 Print Assumptions C11_kf2_paren_in_literal_refuted.
 Print Assumptions C11_kf3_email_url_substring_refuted.
 Print Assumptions C11_kf4_keyword_in_text_refuted.
-Print Assumptions C11_kf5_multibyte_message_refuted.
+Print Assumptions C11_fixed5_multibyte_message_ok.
 Print Assumptions C11_kf6_escape_chain_refuted.
-Print Assumptions C11_kf7_option_below_vec_refuted.
+Print Assumptions C11_fixed7_option_below_vec_ok.
+Print Assumptions C11_fixed7_render_option_element.
 Print Assumptions C11_kf8_flag_message_refuted.
 Print Assumptions C11_kf9_f64_inexact_refuted.
 Print Assumptions C11_classes_separate.
